@@ -215,6 +215,8 @@ def run(ctx):
 
     from vf import limits
     for i, (name, src) in enumerate(limits.docs(big=True)):
+        if ctx.quick and name in ("table_sparse_255", "table_sparse_257", "table_sparse_300"):
+            continue   # ~65 000 cells = 200 000 tokens, four round trips each: 20+ CPU-seconds per document; quick keeps _256 and the six-table one
         if ctx.mine(i) and len(src) < 30000:   # (the two 130 kB tables are covered by C02/C03/C04; four round trips of 200 000 tokens are too slow here)
             ctx.count("wl.limits")
             check_case(ctx, {"conf": {"preset": "js-default"}, "src": src}, minimize=False)
